@@ -28,5 +28,6 @@ def check(ctx):
     adapter.grid(ctx)
     adapter.unique_observable_times(ctx)
     adapter.timeeq(ctx)
+    adapter.merge_close_times(ctx)
     ctx.floor("ONCE", 8)
     ctx.floor("TIMEEQ", 2)
